@@ -21,6 +21,18 @@ for s in sorted(os.listdir(root + "/seeded")):
     rows.append("| %s | %s | %s | %s |" % (s, m.get("property", s[:3]), m.get("summary", "").replace("\n", " ").replace("|", "\\|")[:150],
                                         m.get("status_on_current_tree", "?").replace("|", "\\|")[:200]))
 d = re.sub(r"(\| seed \| property \| change \(abridged\) \| verdict on the current tree \|\n\|---\|---\|---\|---\|\n)(?:\|.*\n)*", lambda m: m.group(1) + "\n".join(rows) + "\n", d)
+# per-property counts and stream names in table 0.2
+import sys
+sys.path.insert(0, root + "/orch")
+import generic
+for i in range(1, 21):
+    pid = "C%02d" % i
+    nfx = len([e for e in fx if e["status"].split()[1] == "property=" + pid])
+    nop = len([e for e in op if e["property"] == pid])
+    names = re.findall(r"^(?:Theorem|Corollary)\s+(\w+)", open(root + "/coq/Props/%s.v" % pid).read(), re.M)
+    st = ", ".join(s["harness"] + (" (race detector)" if s.get("race") else "") for s in generic.PROPS.get(pid, {}).get("streams", [])) or "value (fmt.py, per shell)"
+    d = re.sub(r"(\| %s \| )\d+( \| )[^|]*(\| .*\| )\d+ fixed, \d+ open \|" % pid,
+               lambda m: m.group(1) + str(len(names)) + m.group(2) + st + " " + m.group(3) + "%d fixed, %d open |" % (nfx, nop), d)
 d = re.sub(r"### 0\.4 Open findings \(recorded, not repaired\) — \d+", "### 0.4 Open findings (recorded, not repaired) — %d" % len(op), d)
 d = re.sub(r"undoes it\.  \w+ rounds, \d+ changes:", "undoes it.  Four rounds, %d changes:" % len(rows), d)
 open(root + "/DESIGN.md", "w").write(d)
